@@ -456,10 +456,12 @@ func (w *c10World) txEPs() []c10TxEP {
 				_ = app.AVSManagerKeeper.SetTaskInfo(ctx, &avstypes.TaskInfo{
 					TaskContractAddress: w.avsContract.String(), Name: "c10 task 7", Hash: []byte("c10-task-7"), TaskId: 7,
 					TaskResponsePeriod: 1000, TaskStatisticalPeriod: 10, TaskChallengePeriod: 10, ThresholdPercentage: 60, StartingEpoch: 0,
+					OptInOperators: ops, // both operators are in the task's opt-in snapshot: only the signer check can tell them apart
 				})
 				_ = app.AVSManagerKeeper.SetTaskInfo(ctx, &avstypes.TaskInfo{
 					TaskContractAddress: w.avsContract.String(), Name: "c10 task 8", Hash: []byte("c10-task-8"), TaskId: 8,
 					TaskResponsePeriod: 0, TaskStatisticalPeriod: 1000, TaskChallengePeriod: 10, ThresholdPercentage: 60, StartingEpoch: 0,
+					OptInOperators: ops,
 				})
 				_, sig := w.task8Reveal()
 				store := prefix.NewStore(ctx.KVStore(app.GetKey("avs")), avstypes.KeyPrefixTaskResult)
